@@ -13,8 +13,24 @@ Proof. reflexivity. Qed.
 Lemma write_le4 v : (v < 2 ^ 32)%N -> write_le 4 v = Ret (le_encode 4 v).
 Proof. intros H. unfold write_le. rewrite pow256_4. now replace (v <? 2 ^ 32)%N with true by lia. Qed.
 
+Lemma stream_hash32_id p : length p = 32 -> stream_hash32 p = p.
+Proof. intros H. unfold stream_hash32. apply firstn_all2. lia. Qed.
+
 Lemma parse_hash32_frame p r : length p = 32 -> parse_hash32 (p ++ r) = Ret (p, r).
 Proof. intros H. unfold parse_hash32. rewrite <- H. now rewrite read_app. Qed.
+
+Lemma skipn_skipn {A} a : forall b (l : list A), skipn a (skipn b l) = skipn (b + a) l.
+Proof. intros b; induction b as [|b IH]; intros l; [reflexivity|]. destruct l; [now rewrite !skipn_nil | apply IH]. Qed.
+
+Definition header_bytes (h : header) : bytes :=
+  le_encode 4 (h_version h) ++ h_prev h ++ h_merkle_root h ++
+  le_encode 4 (h_timestamp h) ++ le_encode 4 (h_difficulty h) ++ le_encode 4 (h_nonce h).
+
+Lemma stream_header_wf h : wf_header h -> stream_header h = Ret (header_bytes h).
+Proof.
+  intros (Hv & Hp & Hm & Ht & Hd & Hn). unfold stream_header, header_bytes.
+  rewrite !write_le4 by assumption. cbn [bind]. now rewrite !stream_hash32_id by assumption.
+Qed.
 
 (* ---- stream then parse ------------------------------------------------------------------------- *)
 Lemma header_stream_parse h : wf_header h ->
@@ -23,7 +39,7 @@ Proof.
   destruct h as [v p m t d n]. intros (Hv & Hp & Hm & Ht & Hd & Hn). cbn [h_version h_prev h_merkle_root h_timestamp h_difficulty h_nonce] in *.
   unfold stream_header. cbn [h_version h_prev h_merkle_root h_timestamp h_difficulty h_nonce].
   rewrite !write_le4 by assumption. cbn [bind].
-  unfold stream_hash32. rewrite <- Hp at 1. rewrite <- Hm at 1. rewrite !firstn_all.
+  rewrite !stream_hash32_id by assumption.
   eexists. split; [reflexivity|]. split.
   - rewrite !app_length, !le_encode_length. lia.
   - intros r. unfold parse_header. rewrite <- !app_assoc.
@@ -44,7 +60,8 @@ Proof. reflexivity. Qed.
 
 Lemma parse_hash32_inv s p r : parse_hash32 s = Ret (p, r) -> s = p ++ r /\ (r <> [] -> length p = 32).
 Proof.
-  unfold parse_hash32, read. intros E. injection E as <- <-. split.
+  unfold parse_hash32, read. intros E.
+  assert (E1 : firstn 32 s = p) by congruence. assert (E2 : skipn 32 s = r) by congruence. clear E. subst p r. split.
   - symmetry. apply firstn_skipn.
   - intros Hr. rewrite firstn_length. destruct (Nat.le_gt_cases (length s) 32) as [Hle|]; [|lia].
     rewrite skipn_all2 in Hr by exact Hle. congruence.
@@ -72,12 +89,9 @@ Proof.
   apply read_le4_inv in E6. destruct E6 as [-> Hn].
   assert (W : wf_header (mkHeader v p m t d n)) by (repeat split; assumption).
   split; [exact W|].
-  destruct (header_stream_parse _ W) as (q & Q1 & Q2 & _).
-  exists q. split; [exact Q1|]. split; [exact Q2|].
-  unfold stream_header in Q1. cbn [h_version h_prev h_merkle_root h_timestamp h_difficulty h_nonce] in Q1.
-  rewrite !write_le4 in Q1 by assumption. cbn [bind] in Q1. injection Q1 as <-.
-  unfold stream_hash32. rewrite <- Hp at 1. rewrite <- Hm at 1. rewrite !firstn_all.
-  now rewrite <- !app_assoc.
+  exists (header_bytes (mkHeader v p m t d n)). split; [now apply stream_header_wf|].
+  unfold header_bytes. cbn [h_version h_prev h_merkle_root h_timestamp h_difficulty h_nonce].
+  split; [rewrite !app_length, !le_encode_length; lia|]. now rewrite <- !app_assoc.
 Qed.
 
 Lemma read_le_cases w s :
@@ -158,22 +172,21 @@ Qed.
 Lemma set_nonce_hash h n s : wf_header h -> (n < 2 ^ 32)%N -> stream_header h = Ret s ->
   block_hash dsha256 (set_nonce h n) = Ret (dsha256 (firstn 76 s ++ le_encode 4 n)).
 Proof.
-  intros (Hv & Hp & Hm & Ht & Hd & Hn) Hn' E. unfold block_hash, stream_header, set_nonce in *.
-  cbn [h_version h_prev h_merkle_root h_timestamp h_difficulty h_nonce] in *.
-  rewrite !write_le4 in * by assumption. cbn [bind] in *. injection E as <-. f_equal. f_equal.
-  rewrite !app_assoc. rewrite <- !app_assoc at 1.
-  set (pre := le_encode 4 (h_version h) ++ stream_hash32 (h_prev h) ++ stream_hash32 (h_merkle_root h) ++
+  intros W Hn' E. rewrite stream_header_wf in E by exact W.
+  assert (Es : s = header_bytes h) by congruence. subst s. clear E.
+  assert (W' : wf_header (set_nonce h n)).
+  { destruct W as (Hv & Hp & Hm & Ht & Hd & Hn). repeat split; assumption. }
+  unfold block_hash. rewrite stream_header_wf by exact W'. cbn [bind]. f_equal. f_equal.
+  destruct W as (Hv & Hp & Hm & Ht & Hd & Hn).
+  unfold header_bytes, set_nonce. cbn [h_version h_prev h_merkle_root h_timestamp h_difficulty h_nonce].
+  set (pre := le_encode 4 (h_version h) ++ h_prev h ++ h_merkle_root h ++
               le_encode 4 (h_timestamp h) ++ le_encode 4 (h_difficulty h)).
   assert (L : length pre = 76).
-  { unfold pre, stream_hash32. rewrite !app_length, !firstn_length, !le_encode_length. lia. }
-  replace (le_encode 4 (h_version h) ++ stream_hash32 (h_prev h) ++ stream_hash32 (h_merkle_root h) ++
-           le_encode 4 (h_timestamp h) ++ le_encode 4 (h_difficulty h) ++ le_encode 4 n) with (pre ++ le_encode 4 n)
-    by (unfold pre; now rewrite <- !app_assoc).
-  f_equal. rewrite <- L. rewrite <- !app_assoc. fold pre.
-  replace (le_encode 4 (h_version h) ++ stream_hash32 (h_prev h) ++ stream_hash32 (h_merkle_root h) ++
-           le_encode 4 (h_timestamp h) ++ le_encode 4 (h_difficulty h) ++ le_encode 4 (h_nonce h)) with (pre ++ le_encode 4 (h_nonce h))
-    by (unfold pre; now rewrite <- !app_assoc).
-  now rewrite firstn_app_exact.
+  { unfold pre. rewrite !app_length, !le_encode_length. lia. }
+  assert (A : forall x, le_encode 4 (h_version h) ++ h_prev h ++ h_merkle_root h ++
+           le_encode 4 (h_timestamp h) ++ le_encode 4 (h_difficulty h) ++ x = pre ++ x).
+  { intros x. unfold pre. now rewrite <- !app_assoc. }
+  rewrite !A. rewrite <- L. now rewrite firstn_app_exact.
 Qed.
 
 (* ---- transactions ------------------------------------------------------------------------------ *)
